@@ -2068,6 +2068,37 @@ def forward_aggregate_reads(j):
     return n
 
 
+def desugar_bool_then_some(j):
+    """`cond.then_some(v)` written out as `if cond { Some(v) } else { None }` (the argument is evaluated before the test
+    either way; what matters to the rules is under which edge the Some is built). Returns the count."""
+    n = 0
+    for b in j.get('instances', []) + j.get('poly', []):
+        blocks = b['blocks']
+        for bi in range(len(blocks)):
+            blk = blocks[bi]
+            t = blk['term']
+            if blk.get('cleanup') or t.get('k') != 'call' or t.get('dest') is None or t.get('target') is None:
+                continue
+            nm = (t.get('callee') or {}).get('name', '')
+            if not nm.startswith('core::bool::<impl bool>::then_some') or len(t.get('args', [])) != 2:
+                continue
+            cond, val = t['args']
+            O = 'std::option::Option'
+            some_b = {'cleanup': False, 'stmts': [{'k': 'assign', 'place': copy.deepcopy(t['dest']), 'rv': {'k': 'agg', 'agg': 'adt', 'adt': O, 'variant': 'Some', 'variant_idx': 1, 'is_enum': True, 'fields': ['0'], 'ops': [copy.deepcopy(val)]},
+                                                 'span': t.get('span'), 'exp': t.get('exp'), 'inl': 'then_some'}],
+                      'term': {'k': 'goto', 'target': t['target'], 'span': t.get('span'), 'exp': t.get('exp')}}
+            none_b = {'cleanup': False, 'stmts': [{'k': 'assign', 'place': copy.deepcopy(t['dest']), 'rv': {'k': 'agg', 'agg': 'adt', 'adt': O, 'variant': 'None', 'variant_idx': 0, 'is_enum': True, 'fields': [], 'ops': []},
+                                                 'span': t.get('span'), 'exp': t.get('exp'), 'inl': 'then_some'}],
+                      'term': {'k': 'goto', 'target': t['target'], 'span': t.get('span'), 'exp': t.get('exp')}}
+            blocks.append(some_b)
+            si = len(blocks) - 1
+            blocks.append(none_b)
+            ni = len(blocks) - 1
+            blk['term'] = {'k': 'switch', 'discr': copy.deepcopy(cond), 'targets': [['0', ni]], 'otherwise': si, 'span': t.get('span'), 'exp': t.get('exp'), 'inl': 'then_some'}
+            n += 1
+    return n
+
+
 def _reads_local(blk, x):
     """block blk reads local x (whole or projected) in a statement rvalue or its terminator operands"""
     hit = [False]
@@ -2340,6 +2371,7 @@ def inline_unknown(j, known):
     consts_expanded = _guarded(j, notes, 'expand_adt_consts', lambda: expand_adt_consts(j), 0)
     consts_aliased = _guarded(j, notes, 'alias_consts', lambda: alias_consts(j), {})
     n_desugared = _guarded(j, notes, 'desugar_adaptors', lambda: desugar_adaptors(j), 0)
+    n_then = _guarded(j, notes, 'desugar_bool_then_some', lambda: desugar_bool_then_some(j), 0)
     types_renamed = _guarded(j, notes, 'rename_types_back', lambda: rename_types_back(j, load_known_adts()), {})
     unwrapped = _guarded(j, notes, 'unwrap_known_wrappers', lambda: unwrap_known_wrappers(j, known), {})
     known, renamed = effective_known(j, known, forced=unwrapped)
@@ -2349,7 +2381,7 @@ def inline_unknown(j, known):
     res['reads_forwarded'] = _guarded(j, notes, 'forward_aggregate_reads', lambda: forward_aggregate_reads(j), 0) if not os.environ.get('MRL_NO_FWD') else 0
     res['sroa'] = _guarded(j, notes, 'sroa', lambda: sroa(j), {}) if not os.environ.get('MRL_NO_SROA') else {}
     res['tails_split'] = _guarded(j, notes, 'split_tails', lambda: split_tails(j), [])
-    res.update({'consts_expanded': consts_expanded, 'unwrapped': unwrapped, 'renamed': renamed, 'fields_renamed': fields_renamed, 'types_renamed': types_renamed, 'adaptors_desugared': n_desugared, 'consts_aliased': consts_aliased, 'notes': notes})
+    res.update({'consts_expanded': consts_expanded, 'unwrapped': unwrapped, 'renamed': renamed, 'fields_renamed': fields_renamed, 'types_renamed': types_renamed, 'adaptors_desugared': n_desugared + (n_then or 0), 'consts_aliased': consts_aliased, 'notes': notes})
     return res
 
 
